@@ -111,6 +111,24 @@ class E2E(Harness):
             items += bs
         return bv.SymBytes(items), pk
 
+    def collect(self, ctx, stream, parse_bad, yield_unrec, n):
+        """the items the library delivers for the stream (overridden by harnesses that observe them through another entry point)"""
+        gen = self.defn.packet_generator(stream, parse_bad_pkts=parse_bad, yield_unrecognized_packet_errors=yield_unrec)
+        yields, end = [], "stop"
+        try:
+            for y in gen:
+                yields.append(y)
+                if len(yields) > n + 1:
+                    end = "extra"
+                    break
+        except Exception as e:   # noqa: BLE001 - library outcome
+            end = "exc:" + type(e).__name__
+        return yields, end
+
+    def extra(self, ctx, stream, pk, yields, index_of):
+        """-> (more obligations, more inputs, more observations)"""
+        return [], {}, {}
+
     def run(self, ctx):
         p = self.job["params"]
         lens = p["lens"]
@@ -118,16 +136,7 @@ class E2E(Harness):
         flags = p.get("flagsets", [0, 1, 2, 3])[flags]
         parse_bad, yield_unrec = bool(flags & 1), bool(flags & 2)
         stream, pk = self.build_stream(lens)
-        gen = self.defn.packet_generator(stream, parse_bad_pkts=parse_bad, yield_unrecognized_packet_errors=yield_unrec)
-        yields, end = [], "stop"
-        try:
-            for y in gen:
-                yields.append(y)
-                if len(yields) > len(lens) + 1:
-                    end = "extra"
-                    break
-        except Exception as e:   # noqa: BLE001 - library outcome
-            end = "exc:" + type(e).__name__
+        yields, end = self.collect(ctx, stream, parse_bad, yield_unrec, len(lens))
         n_warn = sum(1 for (_, m) in ctx.warnings if m.startswith(LEN_WARN))
 
         # ---- which input packet does each yield belong to (by identity of its first byte term)
@@ -240,8 +249,11 @@ class E2E(Harness):
         observe = {"yields": obs_y, "end": end, "warnings": n_warn, "cls": "ran"}
         spec = {"yields": spec_y, "end": spec_end}
         cls = ",".join(y["kind"] for y in spec_y) + ("|" + spec_end if spec_end != "stop" else "")
-        res = result(cls, obl, observe=observe, spec=spec, inputs={"stream": stream, "parse_bad": parse_bad, "yield_unrec": yield_unrec,
-                                                                    "template": p["template"], "lens": list(lens)})
+        xo, xi, xobs = self.extra(ctx, stream, pk, yields, index_of)
+        obl += xo
+        observe.update(xobs)
+        res = result(cls, obl, observe=observe, spec=spec, inputs=dict({"stream": stream, "parse_bad": parse_bad, "yield_unrec": yield_unrec,
+                                                                         "template": p["template"], "lens": list(lens)}, **xi))
         return res
 
     def compare_packet(self, i, pkt, st, obl):
@@ -326,7 +338,8 @@ def make(job):
 
 
 # ------------------------------------------------------------------------------------------------- concrete side
-def run_real(xml, stream, parse_bad, yield_unrec, limit):
+def run_real(xml, stream, parse_bad, yield_unrec, limit, runner=None):
+    """runner(xml, stream) -> (items, end): observe the items through another entry point than the definition's generator"""
     import warnings
     from space_packet_parser.xtce import definitions
     from spv.obs import enc_concrete
@@ -359,11 +372,14 @@ def run_real(xml, stream, parse_bad, yield_unrec, limit):
     with warnings.catch_warnings(record=True) as rec:
         warnings.simplefilter("always")
         try:
-            for y in d.packet_generator(stream, parse_bad_pkts=parse_bad, yield_unrecognized_packet_errors=yield_unrec):
-                ys.append(y)
-                if len(ys) > limit + 1:
-                    end = "extra"
-                    break
+            if runner is not None:
+                ys, end = runner(xml, stream)
+            else:
+                for y in d.packet_generator(stream, parse_bad_pkts=parse_bad, yield_unrecognized_packet_errors=yield_unrec):
+                    ys.append(y)
+                    if len(ys) > limit + 1:
+                        end = "extra"
+                        break
         except Exception as e:   # noqa: BLE001
             end = "exc:" + type(e).__name__
     out, cur = [], 0
